@@ -698,11 +698,19 @@ func lemma1HitDiscriminator(docNum, normBits uint64) {
 //@ modifies PostingsIterator.currChunk[i], PostingsIterator.bytesRead[i], chunkedIntDecoder.curChunkBytes, chunkedIntDecoder.bytesRead, chunkedIntDecoder.r, memUvarintReader.*, alloc, elems(any), ghost recsRead[i]
 //@ end
 
+// one freq/norm record = uvarint(freq<<1 | hasLocs) followed by uvarint(norm) iff freq != 0 (C09); reading and
+// skipping a record consume exactly the same bytes and decode the same frequency / has-locations flag
+//@ pred fnRecWord(i) = uvVal(row(i.freqNormReader.r.S), off(i.freqNormReader.r.S) + i.freqNormReader.r.C)
+//@ pred fnRecLen1(i) = uvLen(row(i.freqNormReader.r.S), off(i.freqNormReader.r.S) + i.freqNormReader.r.C)
 //@ func (*PostingsIterator).readFreqNormHasLocs returns (freq, normBits, hasLocs, err)
 //@ thin
 //@ tags [C07]
 //@ requires i != nil && (i.normBits1Hit == 0 ==> i.freqNormReader != nil)
-//@ wf requires i.normBits1Hit == 0 ==> i.freqNormReader.r != nil && i.freqNormReader.r.C >= 0 && i.freqNormReader.r.C <= 0x4000000000000000
+//@ wf requires i.normBits1Hit == 0 ==> i.freqNormReader.r != nil && i.freqNormReader.r.C >= 0 && i.freqNormReader.r.C <= 0x3fffffffffffff00
+//@ ensures err == nil && i.normBits1Hit == 0 && old(i.freqNormReader.r.C) < len(i.freqNormReader.r.S) ==> freq == old(fnRecWord(i)) >> 1 && hasLocs == (old(fnRecWord(i)) & 1 != 0) [C01,C07,C09]
+//@ ensures err == nil && i.normBits1Hit == 0 && old(i.freqNormReader.r.C) < len(i.freqNormReader.r.S) && old(fnRecWord(i)) >> 1 == 0 ==> normBits == 0 && i.freqNormReader.r.C == old(i.freqNormReader.r.C) + old(fnRecLen1(i)) [C01,C07,C09]
+//@ ensures err == nil && i.normBits1Hit == 0 && old(i.freqNormReader.r.C) + old(fnRecLen1(i)) < len(i.freqNormReader.r.S) && old(fnRecWord(i)) >> 1 != 0 ==> normBits == uvVal(row(i.freqNormReader.r.S), off(i.freqNormReader.r.S) + old(i.freqNormReader.r.C) + old(fnRecLen1(i))) && i.freqNormReader.r.C == old(i.freqNormReader.r.C) + old(fnRecLen1(i)) + uvLen(row(i.freqNormReader.r.S), off(i.freqNormReader.r.S) + old(i.freqNormReader.r.C) + old(fnRecLen1(i))) [C01,C07,C09]
+//@ ensures i.freqNormReader == old(i.freqNormReader) && (i.normBits1Hit == 0 ==> i.freqNormReader.r == old(i.freqNormReader.r) && i.freqNormReader.r.S == old(i.freqNormReader.r.S))
 //@ ghostset recsRead[i] = ite(i.normBits1Hit == 0 && err == nil, old(recsRead(i)) + 1, old(recsRead(i)))
 //@ modifies memUvarintReader.C, alloc, elems(any), ghost recsRead[i]
 //@ end
@@ -711,7 +719,11 @@ func lemma1HitDiscriminator(docNum, normBits uint64) {
 //@ thin
 //@ tags [C07]
 //@ requires i != nil && (i.normBits1Hit == 0 ==> i.freqNormReader != nil)
-//@ wf requires i.normBits1Hit == 0 ==> i.freqNormReader.r != nil && i.freqNormReader.r.C >= 0 && i.freqNormReader.r.C <= 0x4000000000000000
+//@ wf requires i.normBits1Hit == 0 ==> i.freqNormReader.r != nil && i.freqNormReader.r.C >= 0 && i.freqNormReader.r.C <= 0x3fffffffffffff00
+//@ ensures err == nil && i.normBits1Hit == 0 && old(i.freqNormReader.r.C) < len(i.freqNormReader.r.S) ==> hasLocs == (old(fnRecWord(i)) & 1 != 0) [C07,C09]
+//@ ensures err == nil && i.normBits1Hit == 0 && old(i.freqNormReader.r.C) < len(i.freqNormReader.r.S) && old(fnRecWord(i)) >> 1 == 0 ==> i.freqNormReader.r.C == old(i.freqNormReader.r.C) + old(fnRecLen1(i)) [C07,C09]
+//@ ensures err == nil && i.normBits1Hit == 0 && old(i.freqNormReader.r.C) + old(fnRecLen1(i)) < len(i.freqNormReader.r.S) && old(fnRecWord(i)) >> 1 != 0 ==> i.freqNormReader.r.C == old(i.freqNormReader.r.C) + old(fnRecLen1(i)) + uvLen(row(i.freqNormReader.r.S), off(i.freqNormReader.r.S) + old(i.freqNormReader.r.C) + old(fnRecLen1(i))) [C07,C09]
+//@ ensures i.freqNormReader == old(i.freqNormReader) && (i.normBits1Hit == 0 ==> i.freqNormReader.r == old(i.freqNormReader.r) && i.freqNormReader.r.S == old(i.freqNormReader.r.S))
 //@ ghostset recsRead[i] = ite(i.normBits1Hit == 0 && err == nil, old(recsRead(i)) + 1, old(recsRead(i)))
 //@ modifies memUvarintReader.C, alloc, elems(any), ghost recsRead[i]
 //@ end
